@@ -155,7 +155,11 @@ def handle (op : String) (j : Json) : Option Json :=
                  ("supported", Json.bool (shape k c).isSome),
                  ("okTexts", Json.bool ((opaquesOf c).all (okText k))),
                  ("modelSpec", match m with | some s => Json.bool (c14Ok k r c (emit k s)) | none => Json.null),
-                 ("spec", match impl with | some s => Json.bool (c14Ok k r c s) | none => Json.null),
+                 -- the specification is judged against what the OPERATION asked for (`specConstruct`: table, schema,
+                 -- column names of the op), which may differ from what the construct object carries
+                 ("spec", match impl with
+                          | some s => Json.bool (c14Ok k r ((constructOf (getObj j "specConstruct")).getD c) s)
+                          | none => Json.null),
                  ("toks", match impl with | some s => Json.arr ((lex k s).map tokJ).toArray | none => Json.null)])
     | none, _ => some (errJ "bad-kind")
     | _, none => some (errJ "bad-construct")
